@@ -191,6 +191,7 @@ func (LifecycleScenario) Execute(p kernel.Plan, rec *kernel.Rec) {
 			break
 		}
 	}
+	replicaCheck(rec, w.host, p.Cfg, "lifecycle")
 	rec.AddSim(int64(w.now.Sub(start) / time.Second))
 }
 
